@@ -10,7 +10,9 @@ META = {
             "child equal the in-process ones (method, URL, endpoint, typed URL parts, parameters, filtered multi-valued "
             "headers, body, user/admin/auth flags, permissions); for EVERY successful handler outcome with single-valued, "
             "canonically distinct, UTF-8 headers, status != 401 and (status < 400 or non-empty body) the HTTP response "
-            "(status, every header, body) written by the parent equals the in-process one. Counterexamples are proved for "
+            "(status, every header, body) written by the parent equals the in-process one, also when the JSON-reply decision "
+            "(default Content-Type) is taken by the child from the headers it received: the decision scans every value of "
+            "every Accept line on both sides (C41_json_reply_scans_all_values, C41_exchange_survives). Counterexamples are proved for "
             "each excluded class (non-UTF-8 strings, multi-valued response headers, empty error bodies, 401). The model is "
             "tied to the code by running the REAL ServiceHandler in-process, via the socket transport and via the file "
             "transport (the real ego binary as child) on shipped and generated services x generated requests: a model-free "
@@ -32,7 +34,8 @@ META = {
 
 REQUIRED = ["C41_string_survives", "C41_string_counterexample", "C41_map_survives", "C41_request_fields_survive",
             "C41_request_counterexample", "C41_response_fields_survive", "C41_response_multivalue_counterexample",
-            "C41_response_emptybody_counterexample", "C41_response_401_counterexample", "C41_response_body_counterexample"]
+            "C41_response_emptybody_counterexample", "C41_response_401_counterexample", "C41_response_body_counterexample",
+            "C41_json_reply_scans_all_values", "C41_json_reply_later_line", "C41_exchange_survives"]
 
 
 def run(ctx):
@@ -63,6 +66,10 @@ def run(ctx):
     c = st.get("counters", {})
     if not cases or c.get("cases", 0) == 0:
         ctx.broken.append("harness produced no cases")
+    # the generator must have exercised what the handlers interpret in the request headers
+    for k in ("accept_lines_json_later", "accept_lines_json_first", "accept_lines_json_absent", "req_multi_valued_header"):
+        if cases and c.get(k, 0) == 0:
+            ctx.broken.append("harness ran no request of shape %s" % k)
     ctx.coverage.update({
         "evaluations": c.get("evaluations", 0),
         "distinct_nontrivial": c.get("distinct_nontrivial", 0),
@@ -71,7 +78,9 @@ def run(ctx):
                 "binary bodies, header operations, failing services), random generated services (echo of 1-6 request "
                 "fields, status, header ops, text/binary/no body, runtime/exit/compile/missing errors). Requests: 5 methods, "
                 "route patterns with 0-2 variables, percent-encoded and non-UTF-8 path and query values, repeated and "
-                "sensitive headers, binary bodies, anonymous/user/admin/token sessions. non-trivial = distinct (program, "
+                "sensitive headers, headers sent as several lines of one name (Accept with application/json on the first / a "
+                "later / no line, q-values, comma lists, other spellings of the name; Content-Type, X-*, Cache-Control, Via, "
+                "Range, Accept-Language, Cookie, Authorization; counters accept_lines_* and req_multi_valued_header), binary bodies, anonymous/user/admin/token sessions. non-trivial = distinct (program, "
                 "request) with a header, query, body, URL variable or authenticated user",
         "samples": st.get("samples", []),
         "counters": c,
